@@ -466,6 +466,21 @@ def replay_artifact(pid, path):
     lines = read_ndjson(path)
     sig = lines[0].get("signature") if lines and "signature" in lines[0] else None
     body = [e for e in lines if "signature" not in e and "script" not in e]
+    if body and body[0].get("ev") == "cfg" and isinstance(body[0].get("cfg"), dict) and body[0]["cfg"].get("sys"):
+        # a replay of spec/System.tla's walks: judged by SystemObs
+        sys.path.insert(0, os.path.join(VERIF, "checks"))
+        import system_common
+        sd = scratch("replay")
+        raw = os.path.join(sd, "raw.ndjson")
+        write_ndjson(raw, body)
+        tp = os.path.join(sd, "t.ndjson")
+        system_common.project(raw, tp)
+        viols, r = observe("ObsSystemTrace", "ObsSystemTrace.cfg", tp, timeout=600)
+        viols = [v for v in viols if any(x["prop"] == pid for x in v["v"])]
+        for v in viols:
+            log("VIOLATION property=%s replay=%s  %s" % (pid, path, json.dumps(v, sort_keys=True)[:400]))
+        log("ObsSystemTrace: %d rejected event(s)" % len(viols))
+        return 1 if viols else 0
     if pid in ("C02", "C04", "C05", "C06", "C11", "C13") and body and body[0].get("ev") == "cfg" and "cfg" in body[0]:
         sys.path.insert(0, os.path.join(VERIF, "checks"))
         import pool_common
